@@ -8,6 +8,10 @@ class ProtocolEnumMeta(EnumMeta):
                 value, names=names, module=module, qualname=qualname, type=type, start=start
             )
         try:
+            if not cls._member_map_:
+                # An enum without members has nothing to look up (and EnumMeta would treat the
+                # call as an attempt to create a new enum class).
+                raise ValueError(value)
             return super().__call__(value, module=module, qualname=qualname, type=type, start=start)
         except ValueError:
             unrecognized = int.__new__(cls, value)
